@@ -28,6 +28,24 @@ PROPS = {
         "trusted": ["borsh / serde_json encodings of the wrapped value are modelled as the identity wrapper and validated by the stream"],
         "assumptions": COMMON_ASSUME,
     },
+    "C18": {
+        "lean_module": "SplProofs.C18",
+        "streams": ["C18"],
+        "rule": "stream disc: random Unicode strings (all planes, combining marks, controls, whitespace at both ends, quotes, backslashes, empty, up to 4 KiB) rendered to attribute "
+                "source text with random valid rendering choices (raw strings with # fences, \\x \\u{…} with underscores/padding, \\n \\t \\0, line continuations); the real "
+                "discriminator-syn builder is run in-process on `#[discriminator_hash_input(<literal>)] struct S;`, its emitted byte string is compared with new_with_hash_input, with the sha2 "
+                "crate and with the model fed the same source text; conversions over all slice lengths 0..32 and boundary/random u64; non-trivial = non-ASCII char, escape or edge whitespace",
+        "trusted": ["SHA-256: the Lean implementation is validated against sha2 on every case (not proved)", "syn's LitStr::value is modelled by SplModel/RustLit.lean and validated by the stream"],
+        "assumptions": COMMON_ASSUME,
+    },
+    "C19": {
+        "lean_module": "SplProofs.C19",
+        "streams": ["C19"],
+        "rule": "stream liberr: every code in [start-3, start+n+3] of TlvError / ListViewError / AccountResolutionError, edge codes and random u32, through TryFrom<u32>, FromPrimitive, "
+                "Display, to_str, ProgramError::from; non-trivial = code that maps to a variant (distinct by case line)",
+        "trusted": ["thiserror Display of a brace-free #[error(\"…\")] is modelled as the text itself; validated by the stream for the library enums"],
+        "assumptions": COMMON_ASSUME,
+    },
     "C16": {
         "lean_module": "SplProofs.C16",
         "streams": ["C16"],
